@@ -1,10 +1,9 @@
 import Ldlm.Model.Edge
-import Ldlm.Props.Pins
 /-!
 C16 — Password and TLS settings are enforced on every entry point or startup fails.
 
 Decision logic stated outright over M6, the model pinned to the source text of the four functions
-involved (`Pins.pin_ValidatePassword`, `pin_AuthInterceptor`, `pin_ServeHTTP`, `pin_GetTLSConfig`)
+involved (`Pins.C16.pin_ValidatePassword`, `pin_AuthInterceptor`, `pin_ServeHTTP`, `pin_GetTLSConfig`)
 and to regenerated structural facts (`auth_first_on_rest`, `auth_installed_iff_password`,
 `grpc_methods`).
 
